@@ -17,6 +17,15 @@ theorem ddOf_spec {inp : RunInput} {s : Sys} {d : Name} (h : InvE inp s) (hf : (
 theorem inLoop_false {pc : PC} (h : pc.inLoop = false) : pc.iterT = false ∧ pc.iterC = false := by
   cases pc <;> simp [PC.inLoop, PC.iterT, PC.iterC] at h ⊢
 
+/-- a failed task whose denotation is a failure during execution delivers `calcResFail` under `ddOf` -/
+theorem delivOf_ddOf_fail {inp : RunInput} {s : Sys} {c : Name} (hD : InvE inp s) (hf : stOf s c = .fail)
+    (hsf : SF inp c) : delivOf inp c (ddOf inp s c) = inp.calcResFail c := by
+  obtain ⟨d, hd, hs⟩ := hsf
+  have sp := ddOf_spec hD (d := c) (by rw [hf]; rfl)
+  have e : d = ddOf inp s c := hd.functional sp.1
+  subst e
+  exact delivOf_fail (by rw [sp.2, hf]; rfl) hs
+
 /-- calc_deps justified by the state are calc_deps of the denotation -/
 theorem CalcS.toOf {inp : RunInput} {s : Sys} {n c : Name} (hD : InvE inp s) (h : CalcS inp s n c) :
     CalcOf inp (ddOf inp s) n c := by
@@ -24,19 +33,36 @@ theorem CalcS.toOf {inp : RunInput} {s : Sys} {n c : Name} (hD : InvE inp s) (h 
   | static hc => exact CalcOf.static hc
   | deliv _ hg hm ih =>
     exact CalcOf.deliv ih (by rw [delivOf_good (by rw [(ddOf_spec hD (RS.good_finished hg)).2]; exact hg)]; exact hm)
+  | delivF _ hf hsf hm ih =>
+    exact CalcOf.deliv ih (by rw [delivOf_ddOf_fail hD hf hsf]; exact hm)
 
 theorem TaskS.toOf {inp : RunInput} {s : Sys} {n x : Name} (hD : InvE inp s) (h : TaskS inp s n x) :
     DepOf inp (ddOf inp s) n x := by
-  rcases h with a | ⟨c, hc, hg, hm⟩
+  rcases h with a | ⟨c, hc, hg, hm⟩ | ⟨c, hc, hf, hsf, hm⟩
   · exact Or.inl a
   · exact Or.inr (Or.inr ⟨c, hc.toOf hD,
       by rw [delivOf_good (by rw [(ddOf_spec hD (RS.good_finished hg)).2]; exact hg)]; exact hm⟩)
+  · exact Or.inr (Or.inr ⟨c, hc.toOf hD, by rw [delivOf_ddOf_fail hD hf hsf]; exact hm⟩)
 
 /-- what the failed-during-execution calc_deps of a node delivered is in its dynamic dependency lists -/
 def DelivF (inp : RunInput) (s : Sys) (nd : Node) : Prop :=
   ∀ c ∈ nd.dynCalc, (stOf s c).finished = true → (stOf s c).good = false → startedFail inp c (ddOf inp s c) = true →
     (∀ x ∈ (inp.calcResFail c).tasks, x ∈ nd.dynTask) ∧ (∀ x ∈ (inp.calcResFail c).files, x ∈ nd.dynTask) ∧
     (∀ x ∈ (inp.calcResFail c).calcs, x ∈ nd.dynCalc)
+
+/-- the completeness invariant `AllDCF` (what a processed, failed-during-execution calc_dep returned is in the lists)
+    gives `DelivF` at a point where the node waits for nothing -/
+theorem DelivF.ofDCF {inp : RunInput} {s : Sys} {n : Name} {nd : Node} (hD : InvE inp s) (h1 : Inv1 inp s)
+    (hdcf : AllDCF inp (SF inp) s) (hn : s.nodes n = some nd) (hl : nd.pc.inLoop = false) : DelivF inp s nd := by
+  intro c hc hfin hg hsf
+  have hm1 := (h1.node n nd hn).m1 hl
+  obtain ⟨_, noC⟩ := inLoop_false hl
+  have hpr : Processed nd c := ⟨by rw [hm1.2.1]; simp,
+    (fun (e : nd.pc.iterC = true ∧ c ∈ nd.snapCalc) => by rw [noC] at e; cases e.1), by rw [hm1.2.2]; simp⟩
+  have hf : stOf s c = .fail := by
+    rw [← (ddOf_spec hD hfin).2]
+    cases hdd : ddOf inp s c <;> rw [hdd] at hsf <;> first | rfl | (simp [startedFail] at hsf)
+  exact hdcf n nd hn c hc hpr hf ⟨_, (ddOf_spec hD hfin).1, hsf⟩
 
 theorem DelivF.noFail {inp : RunInput} [h : NoFailDeliver inp] (s : Sys) (nd : Node) : DelivF inp s nd := by
   intro c _ _ _ _
@@ -225,7 +251,7 @@ theorem invE_select {inp : RunInput} {s : Sys} {n : Name} {nd : Node} (hD : InvE
       rcases hdec with e | e <;> (rw [e] at key; exact key.1)
     · intro hdec
       rw [hdec] at key
-      refine ⟨ddOf inp s, _, sd.hL, sd.hT, key.1, ?_, ?_⟩
+      refine ⟨ddOf inp s, _, sd.hL, sd.hT, key.1, ?_, ?_, key.2.2⟩
       · intro d hd'; rw [key.2.1] at hd'; cases hd'
       · simp [stage2, key.2.1, key.2.2]
   · -- second pass
@@ -284,6 +310,6 @@ theorem invE_select {inp : RunInput} {s : Sys} {n : Name} {nd : Node} (hD : InvE
     · intro _; exact ⟨ddOf inp s, _, sd.hL, sd.hT, h1⟩
     · intro hdec
       rw [hdec] at key
-      exact ⟨ddOf inp s, _, sd.hL, sd.hT, h1, hSd, key⟩
+      exact ⟨ddOf inp s, _, sd.hL, sd.hT, h1, hSd, key, selDecision_go_args hdec⟩
 
 end DoitModel.Run.Dyn
